@@ -80,3 +80,6 @@
   (ite (and (G.isIntegral x) (fp.leq (f64.of.int #xffffffffffffff80) x) (fp.leq x (f64.of.int #x000000000000007f))) #x0000000000000002
   (ite (and (G.isIntegral x) (fp.leq (f64.of.int #xffffffffffff8000) x) (fp.leq x (f64.of.int #x0000000000007fff))) #x0000000000000003
   (ite (fp.eq ((_ to_fp 11 53) RNE ((_ to_fp 8 24) RNE x)) x) #x0000000000000005 #x0000000000000009))))))
+; tag classes of strings and byte arrays
+(define-fun G.isStr ((t (_ BitVec 8))) Bool (or (bvule t #x1f) (and (bvuge t #x30) (bvule t #x33)) (= t #x52) (= t #x53)))
+(define-fun G.isBin ((t (_ BitVec 8))) Bool (or (and (bvuge t #x20) (bvule t #x2f)) (= t #x41) (= t #x42)))
